@@ -298,6 +298,64 @@ class OptimizerStopCase(Case):
         return {}
 
 
+class InfiniteValuesCase(Case):
+    """Infinite values are not failures: a row holding +inf next to -inf (or any infinity) fails only if it holds a NaN."""
+
+    family = "failures/infinite-values"
+
+    def __init__(self, cid, *, R=2, P=2, K=2, C=0, seed=0):
+        self.id, self.R, self.P, self.K, self.C, self.N = cid, R, P, K, C, 2
+        rng = np.random.default_rng([seed, R, P, 13])
+        self.design = np.round(rng.uniform(-1, 1, (R, P, 2)) * 64) / 64
+        self.design[self.design == 0] = 1.0 / 64
+        self.cfg0 = ens.ensemble_config(N=2, R=R, P=P, K=K, C=C, rmin=0, pmin=1, x0=[0.25, -0.5])
+
+    def describe(self):
+        return f"R={self.R} P={self.P} K={self.K} C={self.C}: realization 0 returns (+inf, -inf, ...) unperturbed, realization 1 in its first perturbation"
+
+    def inputs(self, env):
+        R, P = self.R, self.P
+        F = self.K + self.C
+        flags = {(r, p): env.flag(f"nan_{r}_{'u' if p < 0 else p}") for r in range(R) for p in [-1] + list(range(P))}
+        return {"flags": flags, "A": env.reals("a", (R, F, 2), lo=-SL, hi=SL), "c": env.reals("c", (R, F), lo=-SL, hi=SL)}
+
+    def run(self, env, inp):
+        from ropt.ensemble_evaluator import EnsembleEvaluator
+
+        INF = SR(Fraction(0), False, 1)
+        F = self.K + self.C
+
+        def infinite(i, r, p, f, context):
+            if (r, p) in ((0, -1), (1, 0)):
+                return INF if f % 2 == 0 else -INF     # mixed signs along the row
+            return None
+
+        pm = ens.stub_manager()
+        ens.set_samples(lambda s_: env.const(self.design))
+        ev = ens.AffineEvaluator(env, inp["A"], inp["c"], inp["flags"], self.K, nan_col=lambda r, p: F - 1, garbage=infinite)
+        ee = EnsembleEvaluator(clone_config(self.cfg0), None, ev, pm)
+        fr, gr = ee.calculate(env.const(np.array([0.25, -0.5])), compute_functions=True, compute_gradients=True)
+        return {"f": fr, "g": gr}
+
+    def props(self, env, inp, oc):
+        if not oc.ok:
+            return [("no_internal_exception:" + type(oc.exc).__name__, SB(False))]
+        R, P, flags = self.R, self.P, inp["flags"]
+        fr, gr = oc.value["f"], oc.value["g"]
+        ff = ens.fail_flags_functions(flags, R)
+        gf = ens.fail_flags_gradients(flags, R, P, 1)
+        rff, rgf = vals(fr.realizations.failed_realizations), vals(gr.realizations.failed_realizations)
+        props = [("function.failed_iff_a_value_is_nan", all_of(rff[r] == ff[r] for r in range(R))),
+                 ("gradient.failed_iff_nan_or_too_few_perturbations", all_of(rgf[r] == gf[r] for r in range(R)))]
+        # the delivered per-realization values keep their infinities
+        o = np.asarray(vals(fr.evaluations.objectives), dtype=object)
+        props.append(("infinite_value_is_delivered_unchanged", Implies(Not(ff[0]), SB(o[0, 0].inf == 1))))
+        return props
+
+    def observe(self, env, inp, oc):
+        return {}
+
+
 def build_cases(tier):
     cases = []
     k = 0
@@ -338,6 +396,8 @@ def build_cases(tier):
             add(MetamorphicCase, N=2, R=4, P=2, K=1, C=1, failed=failed, seed=seed + 1, mask=(True, False))
         for pf in itertools.combinations([(r, p) for r in (0, 2) for p in range(3)], 2):
             add(MetamorphicCase, N=2, R=3, P=3, failed=(False, True, False), perturbation_failures=pf, seed=seed + 2)
+    add(InfiniteValuesCase, seed=seed)
+    add(InfiniteValuesCase, K=1, C=2, seed=seed)
     for split in (False, True):
         add(OptimizerStopCase, R=2, P=2, rmin=1, pmin=1, split=split)
         add(OptimizerStopCase, R=2, P=2, rmin=2, pmin=2, split=split)
